@@ -1,25 +1,12 @@
 #!/bin/bash
-# re-confirm every seeded change against the current /repo HEAD and run the owning check(s)
+# re-confirm every kept seeded change (both rounds) against the current /repo HEAD, from the copies stored under
+# /verif/seeded/<name>/ (patch.diff, demo.py), and run the check(s) recorded in tools/seed_checks.json
 cd /verif
-run() { tools/seedtest.py "$@" 2>&1 | grep -v conda; }
-S=/tmp/seedout; T=/tmp/seedout
-run $S/C01/out/1 C01-1 C01; run $S/C01/out/2 C01-2 C01,C03
-run $S/C02/out/1 C02-1 C02; run $S/C02/out/2 C02-2 C02
-run $S/C03/out/1 C03-1 C03; run $S/C03/out/2 C03-2 C03,C18
-run $T/C04/out/1 C04-1 C04; run $T/C04/out/2 C04-2 C04
-run $T/C05/out/1 C05-1 C05; run $T/C05/out/2 C05-2 C05
-run $T/C06/out/1 C06-1 C06; run $T/C06/out/2 C06-2 C06
-run $T/C07/out/1 C07-1 C07; run $T/C07/out/2 C07-2 C07
-run $S/C08/out/2 C08-2 C08
-run $S/C09/out/1 C09-1 C09,C14; run $S/C09/out/2 C09-2 C09
-run $T/C10/out/1 C10-1 C10; run $T/C10/out/2 C10-2 C10
-run $T/C11/out/1 C11-1 C11; run $T/C11/out/2 C11-2 C11
-run $T/C12/out/1 C12-1 C12; run $T/C12/out/2 C12-2 C12
-run $T/C13/out/1 C13-1 C13,C10; run $T/C13/out/2 C13-2 C13
-run $S/C14/out/1 C14-1 C14,C09; run $S/C14/out/2 C14-2 C14,C08
-run $T/C15/out/1 C15-1 C15; run $T/C15/out/2 C15-2 C15
-run $T/C16/out/1 C16-1 C16; run $T/C16/out/2 C16-2 C16
-run $T/C17/out/1 C17-1 C17; run $T/C17/out/2 C17-2 C17
-run $S/C18/out/1 C18-1 C18; run $S/C18/out/2 C18-2 C18
-run $T/C19/out/1 C19-1 C19; run $T/C19/out/2r C19-2 C19
-run $T/C20/out/1 C20-1 C20; run $T/C20/out/2r C20-2 C20
+export MUT_WT=${MUT_WT:-/tmp/mutwt}
+for d in seeded/C*; do
+  n=$(basename $d)
+  pids=$(python3 -c "import json,sys; print(json.load(open('tools/seed_checks.json')).get('$n',''))")
+  [ -z "$pids" ] && pids=${n%%-*}
+  tools/seedtest.py /verif/$d $n $pids "$@" 2>&1 | grep -v conda
+done
+git -C /repo worktree remove --force $MUT_WT 2>/dev/null
